@@ -26,6 +26,7 @@ def dispatch (line : String) : String :=
   | "callorder" :: rest => handleCallOrder rest
   | "pratt" :: rest => handlePratt rest
   | "prattfix" :: rest => handlePrattFix rest
+  | "prattfold" :: rest => handlePrattFold rest
   | "str" :: rest => handleStr rest
   | "srcmap" :: rest => handleSrcMap rest
   | "sched" :: rest => handleSched rest
